@@ -841,6 +841,16 @@ def _resolve_action_conflicts(
                 head_groups.update({flow_state.loop_id: [head]})
 
         for group in head_groups.values():
+            # The flow of a head can have been aborted while an earlier group was resolved
+            # (e.g. as child flow of a flow that lost there): it must not start its action anymore
+            group = [
+                head
+                for head in group
+                if is_active_flow(get_flow_state_from_head(state, head))
+                and head.status == FlowHeadStatus.ACTIVE
+            ]
+            if not group:
+                continue
             max_length = max(len(head.matching_scores) for head in group)
             ordered_heads = sorted(
                 group,
